@@ -87,6 +87,8 @@ package nodeconf
 //@ def listed(n, t) = exists k int :: 0 <= k && k < len(n.Types) && n.Types[k] == t
 
 //@ func сonfigurationToNodeConf
+//@   modifies nothing
+//@   ensures [new_object]         err == nil ==> fresh(nc)
 //@   ensures [ring_or_error]      err == nil ==> nc != nil && nc.chash != nil && nc.chashFileV2 != nil && nc.chash != nc.chashFileV2
 //@   ensures [ring_parameters]    err == nil ==> sel(ringRF, nc.chash) == ReplicationFactor && sel(ringPC, nc.chash) == PartitionCount
 //@   ensures [added_once]         err == nil ==> sel(ringAddCalls, nc.chash) == 1
@@ -116,3 +118,68 @@ package nodeconf
 //@     invariant forall k int :: 0 <= k && k < len(members) ==> (exists j int :: 0 <= j && j <= rangeindex && old(listed(c.Nodes[j], NodeTypeTree)) && members[k] == box(old(c.Nodes[j])))
 //@     invariant forall j int :: 0 <= j && j <= rangeindex && old(listed(c.Nodes[j], NodeTypeTree)) ==> (exists k int :: 0 <= k && k < len(members) && members[k] == box(old(c.Nodes[j])))
 //@     decreases len(c.Nodes) - rangeindex
+
+// ---------------------------------------------------------------------------------------------
+// C18: the own id. "Responsible" and "minus itself" are decided against the accountId of the ACTIVE
+// configuration object; the service keeps the invariant that the active configuration carries the
+// service's own id. Activation (setLastConfiguration) preserves it and needs it on entry - so the own
+// id has to be in place before the first configuration is made active (Init).
+//@ def confOK(s) = s.last == nil || (typeis(s.last, "*nodeconf.nodeConf") && cast(s.last, "*nodeConf").accountId == s.accountId)
+//@ func type ChangeObserver
+//@   modifies nothing
+//@ func iface nodeconf.NodeConf.Id
+//@   pure
+//@ func iface nodeconf.NodeConf.Configuration
+//@   modifies nothing
+//@ func iface nodeconf.Store.SaveLast
+//@   modifies nothing
+//@ func iface nodeconf.Store.GetLast
+//@   modifies nothing
+//@ func (*nodeConf).Id
+//@   modifies nothing
+//@ func (*nodeConf).Configuration
+//@   modifies nothing
+//@ func (*service).setLastConfiguration
+//@   requires s != nil
+//@   requires [active_configuration_carries_own_id] confOK(s)
+//@   ensures  [active_configuration_carries_own_id] confOK(s)
+//@   ensures  [activated_or_error]  err == nil ==> s.last != nil
+//@   ensures  [own_id_untouched]    s.accountId == old(s.accountId)
+//@   loop 0:
+//@     invariant confOK(s) && s.last != nil && s.accountId == old(s.accountId) && s != nil
+//@ func (*service).saveAndSetLastConfiguration
+//@   requires s != nil && s.store != nil
+//@   requires [active_configuration_carries_own_id] confOK(s)
+//@   ensures  [active_configuration_carries_own_id] confOK(s)
+//@   ensures  [own_id_untouched]    s.accountId == old(s.accountId)
+
+// Init: a fresh service (no active configuration yet) takes its own id from the account service
+// before any configuration is made active; on success a configuration is active and carries that id.
+// (Assumed frames of the wiring calls: the component container, the account service, the stores, the
+// periodic-sync constructor and the address merge do not write the service object.)
+//@ ghost ownPeerId Str stable
+//@ package github.com/anyproto/any-sync/app
+//@ func (*App).MustComponent
+//@   modifies nothing
+//@ func MustComponent
+//@   modifies nothing
+//@ package github.com/anyproto/any-sync/util/periodicsync
+//@ func NewPeriodicSync
+//@   modifies nothing
+//@ package github.com/anyproto/any-sync/nodeconf
+//@ func iface nodeconf.ConfigGetter.GetNodeConf
+//@   modifies nothing
+//@ func iface nodeconf.ConfigUpdateGetter.GetNodeConfUpdateInterval
+//@   modifies nothing
+//@ func iface accountservice.Service.Account
+//@   modifies nothing
+//@   posits [has_account] result != nil
+//@   sets ownPeerId = result.PeerId
+//@ func mergeCoordinatorAddrs
+//@   trusted
+//@   modifies object lastStored
+//@ func (*service).Init
+//@   requires s != nil && a != nil
+//@   requires [fresh_service] s.last == nil
+//@   ensures [own_id_from_account]                  err == nil ==> s.accountId == ownPeerId
+//@   ensures [active_configuration_carries_own_id] err == nil ==> s.last != nil && confOK(s)
